@@ -1,6 +1,7 @@
 (* C01, part c01stream - statements only (proofs in C02_Prims/): stream Write/Read helper pairs round-trip through
    ANY reader however it splits its reads (every fault-free script of Give n / Half events), and the
-   Serializer/Deserializer primitive pairs round-trip. Model = code after 93eaa3d (D01c) and 251eda6 (D02c). *)
+   Serializer/Deserializer primitive pairs round-trip. Model = code after 93eaa3d (D01c), 251eda6 (D02c) and c8478d2
+   (ReadBytes: one io.ReadFull up to 1 MiB, a doubling buffer above). *)
 From Coq Require Import ZArith NArith List.
 From Verif.C02_Prims Require Import Model Stream ProofsLE ProofsStream ProofsPairs.
 Import ListNotations.
@@ -27,7 +28,7 @@ Theorem C01_stream_roundtrip_T : forall t v rest es, typed t v -> fault_free es 
   exists es' c, fault_free es' /\ read_t t (mkR (tk_encode t v ++ rest) es) = (Ok v, mkR rest es', c).
 Proof. exact read_t_roundtrip. Qed.
 
-(* WriteBytes / ReadBytes (any length, across the 4 KiB chunks of the repaired ReadBytes) *)
+(* WriteBytes / ReadBytes (any length: the single io.ReadFull up to 1 MiB and every refill of the doubling buffer above) *)
 Theorem C01_stream_roundtrip_bytes : forall bs rest es, fault_free es ->
   exists es' c, fault_free es' /\
     read_bytes (Z.of_nat (length bs)) (mkR (bs ++ rest) es) = (Ok bs, mkR rest es', c).
